@@ -33,6 +33,15 @@ CLAIMED["C09"] = ("PrefixPD", "same model; RenewAndRepeat / NoGrowthOnRepeat / R
 CLAIMED["C10"] = ("StaticFile", "TLA+ model of lease files (line grammar, whole-file parse, last-wins map), per-protocol tables, one-step edits and watcher reloads checked by TLC incl. liveness; all files of <= 3 lines and seeded edit sequences executed on the real plugin (Setup4/Setup6, fsnotify autorefresh observed through reload observation points) and validated by TLC trace checking",
    "AllOrNothing/Quiescent/Isolation/Eventually hold in StaticFile.tla (TLC exhaustive: 2 MACs, 2 addresses, files <= 2 lines, 2 edits, both protocols); on the real plugin 3770 (protocol, file) pairs are loaded and read back through the handlers, plus dual-stack and autorefresh edit sequences with good/malformed contents.",
    "trusted: harness/file.go (rendering abstract lines to text, single-syscall edits, handler queries), fsnotify one event per write syscall, TLC; in-place updates only", "DESIGN.md section 3 C10")
+_DISP_NOTE = "trusted: harness/dispatch.go (datagram construction, the harness's own parse of what it sent, comparison of the captured reply, frame decoding), the server send/frame hooks, TLC; an unbound listener always learns the arrival interface"
+CLAIMED["C11"] = ("Dispatch", "HandleMsg4's base-reply rules as a pure TLA+ function, shown by TLC to satisfy the declarative statement on the whole abstract input product; the same product fed as concrete datagrams (bytes) to the real HandleMsg4 through the socket-less listener, captured replies validated by TLC",
+   "C11Says holds for Reply4 on 2 x 256 x 257 x ... abstract inputs (TLC, every input one state); the real handler is driven with the same product (quick tier thins the non-request corner, thorough is the whole product) with random remaining fields, receive buffers poisoned after they return to the pool.", _DISP_NOTE, "DESIGN.md section 3 C11-C15")
+CLAIMED["C12"] = ("Dispatch", "HandleMsg6's base-reply / relay mirroring / destination rules as a TLA+ function checked against the declarative statement by TLC on the whole product; the product fed as bytes to the real HandleMsg6, captured (reply, peer, control message) validated by TLC",
+   "C12Says holds for Reply6 on 327680 abstract inputs; real datagrams with relay depth 0..4 and random per-layer link/peer/Interface-ID are answered and the serialised reply is walked layer by layer.", _DISP_NOTE, "DESIGN.md section 3 C11-C15")
+CLAIMED["C13"] = ("Dispatch", "RunChain / LoadPlugins as TLA+ functions checked against the declarative statement by TLC for all chains <= 5 and all plugin-kind lists <= 3; synthetic plugins registered through RegisterPlugin, loaded by the real LoadPlugins and driven through HandleMsg4/6 log what they were handed; TLC validates invocation order, hand-over and what was sent",
+   "All 3906 chains x both protocols and ~10^3 configurations run through the real loader and dispatch loops.", _DISP_NOTE, "DESIGN.md section 3 C11-C15")
+CLAIMED["C15"] = ("Dispatch", "the RFC 2131 section 4.1 destination cascade as a TLA+ function, one declarative conjunct per sentence, equivalence checked by TLC on the whole addressing product; the product fed to the real HandleMsg4, (peer, control message, link-level flag) captured by the send hook and the Ethernet frame by the frame hook, validated by TLC",
+   "Exhaustive over giaddr/ciaddr class x flag x type x reply type x yiaddr x bound/unbound x arrival interface; link-level replies run through sendEthernet up to the frame on a real interface with a hardware address.", _DISP_NOTE, "DESIGN.md section 3 C11-C15")
 NOT_YET = {}
 
 def main():
